@@ -344,7 +344,13 @@ func init() {
 							Op{K: "writefile", P: src + "/" + k + "/" + u.Comps[0], D: &Data{Len: 2, Kind: "text", Tag: uint32(2100 + i)}})
 					}
 				}
-				tail = append(tail, Op{K: "rename", P: src, Q: top + "/zq-renamed"}, Op{K: "mkdirall", P: top + "/zq-renamed/" + u.Comps[0] + "-x/y", M: 0o755})
+				if r.IntN(2) == 0 {
+					tail = append(tail, Op{K: "rename", P: src, Q: top + "/zq-renamed"}, Op{K: "mkdirall", P: top + "/zq-renamed/" + u.Comps[0] + "-x/y", M: 0o755})
+				} else {
+					// the whole nested tree is removed recursively and its top is created again: nothing of
+					// the old subtree may be left behind or come back
+					tail = append(tail, Op{K: "removeall", P: top}, Op{K: "mkdirall", P: src, M: 0o755})
+				}
 				ops = append(ops, tail...)
 			}
 			c.Ops = ops
